@@ -6,6 +6,8 @@ Tie (T-beh): the Lean model M1 (`parseOp`/`parseArgs`/`parseArg`, `print`) again
 `stage1.parse_op`/`parse_args`/`parse_arg` and `str(tree)`: canonical tree *with node positions* (fresh
 names and ellipsis ids renumbered by first occurrence), printed form, error class, error kind and caret
 positions, on all token sequences up to a length bound, random strings and grammar-generated expressions.
+Tie (T-beh, normal form): on every accepted string of the same streams the model's `NRoot`/`Excluded`/`Printable` verdicts
+against the real round trip `parse_op(str(parse_op(s)))` (prediction of `parse_print_parse`: not Excluded => same shape).
 Search (independent of the model, on the real code only):
   O1  no exception other than einx.errors.SyntaxError escapes parse_op
   O2  the SyntaxError quotes the caller's string and every caret is inside it
@@ -553,6 +555,49 @@ def correspond(ctx, strings, entry, disagreements, label):
     return reals
 
 
+def correspond_nf(ctx, strings, reals, disagreements, label):
+    """Normal form / `parse_print_parse` stream: on every string the real parser accepts, the model's verdicts on the tree
+    (`NRoot`: the normal form theorem `parse_normal_form`; `Excluded`; `Printable`: `parse_printable`) against the REAL
+    round trip `parse_op(str(parse_op(s)))`: not Excluded  =>  the real round trip succeeds with the same tree shape
+    (the prediction of the theorem `parse_print_parse`).  A tree excluded by one of the three patterns is expected NOT to
+    round-trip on the real code (counted; a round trip that unexpectedly succeeds there is reported as a broken tie too,
+    because the witnesses `excluded_*_necessary` would no longer describe the code)."""
+    idx = [i for i, r in enumerate(reals) if "ok" in r]
+    if not idx:
+        return
+    answers = ctx.driver().ask_many([{"kind": "notation_nf", "text": strings[i]} for i in idx])
+    for i, m in zip(idx, answers):
+        s, r = strings[i], reals[i]
+        ctx.count("nf:cases")
+        if not m.get("ok"):
+            disagreements.append((label, "nf", s, "real parses, model (notation_nf) does not"))
+            continue
+        if m["str"] != r["str"]:
+            disagreements.append((label, "nf", s, f"printed forms differ: real {r['str']!r} model {m['str']!r}"))
+            continue
+        if not m["nroot"]:
+            disagreements.append((label, "nf", s, "the model's tree violates NRoot (theorem parse_normal_form)"))
+        if not m["excluded"] and not m["printable"]:
+            disagreements.append((label, "nf", s, "not Excluded but not Printable (theorem parse_printable)"))
+        r2 = real_parse(r["str"])
+        same = "ok" in r2 and canon(r2["ok"], positions=False) == canon(r["ok"], positions=False)
+        bad = m["ellList"] or m["ellEll"] or m["flatConcat"]
+        if not m["excluded"]:
+            ctx.count("nf:not_excluded")
+            if m["adjSpaces"]:
+                ctx.count("nf:not_excluded_with_adjacent_spaces")
+            if not same:
+                disagreements.append((label, "nf", s, f"not Excluded, but the real round trip fails: str = {r['str']!r}, "
+                                      f"reparse {json.dumps({k: v for k, v in r2.items() if k != 'ok'})[:160]}"))
+        elif bad:
+            ctx.count("nf:excluded_pattern")
+            if same:
+                ctx.count("nf:excluded_pattern_but_roundtrips")
+                disagreements.append((label, "nf", s, f"tree contains an excluded pattern but the real round trip succeeds: {r['str']!r}"))
+        else:
+            disagreements.append((label, "nf", s, "Excluded without one of the three patterns"))
+
+
 def run(ctx):
     rng = ctx.rng
     quick = ctx.quick
@@ -569,6 +614,9 @@ def run(ctx):
     disagreements = []
     n_random = 2000 if quick else 100000
     n_grammar = 1500 if quick else 40000
+
+    if ctx.driver_ok:
+        correspond_nf(ctx, NF_PROBES, [real_parse(s) for s in NF_PROBES], disagreements, "nf-probe")
 
     def batches():
         yield [("probe", s) for s in PROBES]
@@ -599,6 +647,7 @@ def run(ctx):
         strings = [s for _, s in batch]
         if ctx.driver_ok:
             reals = correspond(ctx, strings, "op", disagreements, batch[0][0])
+            correspond_nf(ctx, strings, reals, disagreements, batch[0][0])
         else:
             reals = [real_parse(s) for s in strings]
         for (label, s), r in zip(batch, reals):
@@ -633,7 +682,8 @@ def run(ctx):
         ctx.sample({"outcome": k, "example": s}, cap=40)
     ctx.extra["model_disagreements"] = len(disagreements)
     for label, entry, s, d in disagreements[:5]:
-        ctx.tie_broken(f"correspondence:notation-model:{entry}", f"{label} input {s!r}: {d}")
+        tie = "correspondence:notation-normal-form" if entry == "nf" else f"correspondence:notation-model:{entry}"
+        ctx.tie_broken(tie, f"{label} input {s!r}: {d}")
         ctx.sample({"DISAGREEMENT": True, "entry": entry, "text": s, "detail": d}, cap=60)
 
 
@@ -667,6 +717,14 @@ PROBES = [
     "a | a", "|", "[a b]...", "[......]...", "[a...]...", "[[a b]...]", "[[......]...]", "[[a...]...]", "a", "²", "a ²", "١ a", "a b, c -> (a + b) c", "[...] ...", "[[a]] a",
     "(a -> b) c, d", "(a , b) (c -> d)", "(a, b) (c, d, e)", "a -> b -> c", "(a + (b -> c))", "[] + a", "( [] + a)", "a ( -> b", "a...", "a ...",
     "......", "(a b)...", "((a + b))", "((a + b) + c)", "((a + b) -> c)", "((a + b), c)", "[a, b] c", "a [b [c]] d", "01 1", "",
+]
+
+# Probes of the normal-form stream only (no search oracle runs on them: some are further inputs of the known findings D11/D18,
+# e.g. D18 through the bracket pass, and must not add new violation signatures).
+NF_PROBES = [
+    "[([(a + b)])]", "a [1]", "a, -> b", "[a [1]] 1", "(a, -> b)", "[[a] (b -> c)...]", "[[a b] -> c]...", "a, , b", "b ......",
+    "[[a b]...]", "[[a...]...]", "((a + b) -> c)", "[(a -> b)...]", "([a] -> [b])... c", "[[1]...] (2 + a)", "[a, b] [c]",
+    "a [b [c]] d, (e -> f)", "(a [b] -> c) [d]", "[[a] -> b]", "([a b] , c)...",
 ]
 
 
